@@ -34,6 +34,7 @@ Props ==
   /\ Tag("C08.overflow-reported", OverflowReportedStep /\ Capacity')
   /\ Tag("C08.set-spread", SetSpreadStep)
   /\ Tag("C08.ring-agrees", RingAgrees')
+  /\ Tag("C08.nested", NestedStep)
 
 Same == UNCHANGED <<nops, nres, ranp>>
 
@@ -96,6 +97,26 @@ TExec ==
   /\ ranp' = ranp \cup {Ev.calls[i] : i \in DOMAIN Ev.calls}
   /\ UNCHANGED <<nops, nres>> /\ Adv
 
+(* execute with callbacks that schedule on the fly: Ev.sp = [[by: [cb,p1,p2,p3], s: [off,cb,p1,p2,p3,prio]]].
+   Judged on the observation without reference to the order the code happens to use: every item
+   due in this frame (those due at entry and those scheduled zero frames ahead by a callback of
+   this frame) ran exactly once, nothing else ran, and the items present at entry ran in
+   ascending priority.  Then the code model (ExecuteN) must yield the same number of calls. *)
+SpOf == [k \in DOMAIN Ev.sp |-> [by |-> Ev.sp[k].by, s |-> Ev.sp[k].s]]
+DueP == LET d == DueNow(ob[0], SpOf, 1) IN [i \in DOMAIN d |-> Params(d[i])]
+PosObs(c) == CHOOSE i \in DOMAIN Ev.calls : Ev.calls[i] = c
+TExecN ==
+  /\ IsEv("execn")
+  /\ Tag("C08.guard.nested", ~done /\ NestedOk(SpOf))
+  /\ Tag("C08.exactly-once", \A c \in {Ev.calls[i] : i \in DOMAIN Ev.calls} : ObsCnt(Ev.calls, c) <= 1)
+  /\ Tag("C08.runs-when-due", {Ev.calls[i] : i \in DOMAIN Ev.calls} = {DueP[i] : i \in DOMAIN DueP})
+  /\ Tag("C08.priority-order", \A i, j \in DOMAIN ob[0] : ob[0][i].prio < ob[0][j].prio => PosObs(Params(ob[0][i])) < PosObs(Params(ob[0][j])))
+  /\ ExecuteN(SpOf)
+  /\ Tag("C08.conf.exec.rc", rc' = Ev.rc)
+  /\ Props
+  /\ ranp' = ranp \cup {Ev.calls[i] : i \in DOMAIN Ev.calls}
+  /\ UNCHANGED <<nops, nres>> /\ Adv
+
 TAdv == IsEv("adv") /\ Tag("C08.guard.adv", done) /\ Advance /\ Props /\ Same /\ Adv
 TReset == IsEv("reset") /\ Reset /\ Props /\ Same /\ Adv
 
@@ -112,7 +133,7 @@ TGexec ==
   /\ Props /\ Same /\ Adv
 TGreset == IsEv("greset") /\ GsmReset /\ Props /\ Same /\ Adv
 
-TNext == TSched \/ TSet \/ TExec \/ TAdv \/ TReset \/ TGsched \/ TGexec \/ TGreset
+TNext == TSched \/ TSet \/ TExec \/ TExecN \/ TAdv \/ TReset \/ TGsched \/ TGexec \/ TGreset
 TSpec == TInit /\ [][TNext]_tvars
 Post == WriteVerdicts
 =============================================================================
